@@ -20,7 +20,7 @@ ASSUMPTIONS = [
     "the parallel hashing path is reached by construction (two files larger than the threshold in one directory); its use is inferred from the inputs, not from an internal hook",
 ]
 MONITORS = "oid / bytes equality across permutations and configurations; independent canonical encoder; collision map"
-REQUIRED_COUNTERS = ["state_warmed_under_other_algorithm", "permutations_checked", "sets_exhaustively_permuted", "disk_builds", "parallel_path_builds", "shuffled_walk_builds",
+REQUIRED_COUNTERS = ["get_obj_after_add_histories", "state_warmed_under_other_algorithm", "permutations_checked", "sets_exhaustively_permuted", "disk_builds", "parallel_path_builds", "shuffled_walk_builds",
                      "warm_state_builds", "prefix_objects_checked", "roundtrip_checks", "get_hashes_threshold_checks"]
 
 
@@ -124,7 +124,31 @@ def run_shard(ctx):
                 if obj is None or obj.oid != canonical_dir_oid(sub):
                     res.violation("prefix-object-differs", f"object for sub-directory {'/'.join(pre)} != object built from that sub-directory",
                                   case=case, detail={"entries": listing, "prefix": pre})
-            for key, dg in items[:2]:
+            # a history on one Tree: query, add deeper entries, query again
+            items2 = dict(items)
+            if prefixes and rng.random() < 0.5:
+                res.count("get_obj_after_add_histories")
+                for pre in rng.sample(sorted(prefixes), min(2, len(prefixes))):
+                    nk = (*pre, gen.name(rng, odd=0.3) + "-late", gen.name(rng, odd=0.3))
+                    if any(nk[:i] in items2 for i in range(1, len(nk))) or any(e[: len(nk)] == nk for e in items2):
+                        continue
+                    items2[nk] = "%032x" % rng.getrandbits(128)
+                    t.add(nk, rmeta(rng), HashInfo("md5", items2[nk]))
+                if rng.random() < 0.5 and items:
+                    k0 = items[0][0]
+                    items2[k0] = "%032x" % rng.getrandbits(128)
+                    t.add(k0, rmeta(rng), HashInfo("md5", items2[k0]))
+                for pre in sorted({k[:i] for k in items2 for i in range(1, len(k))}):
+                    sub = {"/".join(kk[len(pre):]): v for kk, v in items2.items() if kk[: len(pre)] == pre}
+                    obj = t.get_obj(dummy, pre)
+                    if obj is None or obj.oid != canonical_dir_oid(sub):
+                        res.violation("prefix-object-stale-after-add", f"get_obj({'/'.join(pre)}) after further add() calls != object of the current sub-directory",
+                                      case=case, detail={"prefix": pre})
+                        break
+                t.digest()
+                if t.oid != canonical_dir_oid({"/".join(kk): v for kk, v in items2.items()}):
+                    res.violation("digest-stale-after-add", "digest() after further add() calls is not the canonical id of the current entries", case=case)
+            for key, dg in sorted(items2.items())[:2]:
                 obj = t.get_obj(dummy, key)
                 if obj is None or obj.oid != dg:
                     res.violation("prefix-object-differs/file", "get_obj of a file key does not give that file's object", case=case, detail={"entries": listing})
